@@ -2,7 +2,7 @@
 import numpy as np
 from harness import wavecheck as wk, waveoracle as wo, wavesim_corr as wc
 
-THEOREMS = ['C13_wsa_counts', 'C13_overflow_mark', 'C13_no_overflow_is_exact']
+THEOREMS = ['C13_wsa_counts', 'C13_overflow_mark', 'C13_no_overflow_is_exact', 'C13_capture_summary', 'C13_value_before_prefix']
 
 
 def oracle(k, w):
